@@ -449,13 +449,13 @@ pub fn frames(tier: Tier) -> Vec<Seed> {
         let mut data = vec![];
         let mut i = 0u32;
         // (300 KB / windowLog 14 was measured once: 2.5 M states in 75 minutes and still not closed - every replay
-        // decodes up to the whole frame)
-        while data.len() < 40_000 {
+        // decodes up to the whole frame; 40 KB / windowLog 12: 3.7 M states, not closed in 25 minutes)
+        while data.len() < 16_000 {
             data.extend_from_slice(format!("row {} col {} val {}\n", i % 977, i % 13, i.wrapping_mul(2654435761) % 1000).as_bytes());
             i += 1;
         }
         let f = crate::refz::compress(&data, &crate::refz::CParams { level: 3, window_log: Some(12), checksum: true, ..Default::default() }, None).unwrap();
-        v.push(Seed { name: "libzstd level 3, 40 KB, windowLog 12".into(), frame: f, plain: data });
+        v.push(Seed { name: "libzstd level 3, 16 KB, windowLog 12".into(), frame: f, plain: data });
     }
     v
 }
@@ -518,7 +518,7 @@ pub fn explore(run: &mut Run, tier: Tier, prop: &str) -> Totals {
         if s.frame.len() > 20_000 {
             continue;
         }
-        for trickle in tier.pick(vec![0usize, 3], vec![0, 1, 3, 5]) {
+        for trickle in if s.plain.len() > 8000 { vec![0usize, 3] } else { tier.pick(vec![0usize, 3], vec![0, 1, 3, 5]) } {
             systems.push(DriveSys::new_mode(s.clone(), trickle, false, true));
         }
     }
